@@ -165,12 +165,12 @@ type offer struct {
 
 type round struct {
 	firstTarget atomic.Value // func(): called inside the miner's first GetTarget call of this round (stop-in-walk)
-	sc        *scenario
-	P         *roundP
-	rng       *vh.Rng
-	Prev      wire.Hash
-	Challenge wire.Hash
-	Height    uint64
+	sc          *scenario
+	P           *roundP
+	rng         *vh.Rng
+	Prev        wire.Hash
+	Challenge   wire.Hash
+	Height      uint64
 
 	activated int32
 	T0        time.Time
@@ -195,7 +195,7 @@ type scenario struct {
 
 func (r *round) active() bool { return atomic.LoadInt32(&r.activated) == 1 }
 
-var eventClasses = []string{"plain", "plain", "tip-before", "plain", "stop-before", "plain", "same-height", "plain", "tip-not-better", "plain",
+var eventClasses = []string{"plain", "tip-at-template", "tip-before", "plain", "stop-before", "plain", "same-height", "plain", "tip-not-better", "plain",
 	"tip-after", "plain", "stop-after", "stop-in-walk", "same-height-rejected", "tip-before", "plain", "stop-before", "same-height-restart", "stop-in-walk"}
 var setClasses = []string{"all-valid", "some-unbound", "all-valid", "some-error", "none-valid", "mixed", "poisoned"}
 var targetClasses = []string{"off0", "off1", "boundary", "off2", "never", "off4", "second-never", "off1", "off0"}
@@ -397,6 +397,11 @@ func genScenario(e *env, root *vh.Rng, idx int) *scenario {
 			rp.Reject, rp.Rejects = rng.PickS("reject", "orphan"), 1
 		}
 		p.Rounds = []roundP{rp}
+	case "tip-at-template":
+		// a better tip becomes the chain's best node between the moment the chain snapshots the template and the moment
+		// the miner starts its round on it: the round must be given up at once
+		rp := mk(0, height, setClass, tClass, -1, 3)
+		p.Rounds = []roundP{rp}
 	case "tip-before", "stop-before":
 		rp := mk(0, height, setClass, tClass, -1, 3)
 		if rp.TClass == "off0" { // the eligible slot must lie ahead of now: offset >= 1 and template slot + offset >= now slot + 4
@@ -443,7 +448,7 @@ func genScenario(e *env, root *vh.Rng, idx int) *scenario {
 		p.Restart = p.Class == "same-height-restart"
 	}
 	switch p.Class {
-	case "tip-before", "tip-after":
+	case "tip-before", "tip-after", "tip-at-template":
 		p.TipKind = rng.PickS("capsum", "capsum", "earlier-timestamp", "higher-quality")
 	case "tip-not-better":
 		p.TipKind = rng.PickS("lower-capsum", "later-timestamp", "lower-quality", "equal")
